@@ -331,6 +331,120 @@ def gen_scenario(rng, name, nact):
     return scn
 
 
+# ---------------------------------------------------------------------------- interleaving templates
+def _tmpl_base(rng, name, nflows=3):
+    flows = [{"a": "10.0.0.%d:%d" % (1 + i, 1001 + i), "b": "10.0.1.1:%d" % rng.choice([4321, 80])} for i in range(nflows)]
+    scn = {"name": name, "flows": flows, "files": [], "converters": ["cva"], "searches": [], "actions": [], "defs": {}}
+    return scn
+
+
+def _plain_def(rng, scn, classes=("port", "host", "data", "time", "id")):
+    cports = [int(f["a"].rsplit(":", 1)[1]) for f in scn["flows"]]
+    k = rng.choice(classes)
+    if k == "port":
+        return rng.choice([("cport", sorted(rng.sample(cports, 2))), ("sport", [rng.choice([4321, 80])]), ("not", ("cport", [cports[0]]))])
+    if k == "host":
+        return ("chost", rng.choice(scn["flows"])["a"].rsplit(":", 1)[0])
+    if k == "data":
+        return (rng.choice(["cdata", "sdata", "data"]), rng.choice(WORDS))
+    if k == "time":
+        return ("ltime", rng.choice([5, 20, 40]))
+    return ("id", sorted(rng.sample(range(len(scn["flows"])), 2)))
+
+
+def _file_kinds(rng, scn, base_t=20000):
+    """file 0: every flow once; then one file of each kind for flow 0: extend, reset, add-only (new flow)"""
+    n = len(scn["flows"])
+    f0 = [{"flow": i, "dir": rng.choice([0, 0, 1]), "t": base_t + 1000 * i + rng.randrange(900), "data": rng.choice(WORDS)} for i in range(n - 1)]
+    x = rng.randrange(n - 1)
+    ext = [{"flow": x, "dir": rng.choice([0, 1]), "t": base_t + 30000 + rng.randrange(5000), "data": rng.choice(WORDS)}]
+    rst = [{"flow": x, "dir": rng.choice([0, 1]), "t": 1000 + rng.randrange(5000), "data": rng.choice(WORDS)}]
+    add = [{"flow": n - 1, "dir": 0, "t": base_t + 50000 + rng.randrange(5000), "data": rng.choice(WORDS)}]
+    scn["files"] = [f0, ext, rst, add]
+    return {"base": 0, "extend": 1, "reset": 2, "add": 3}, x
+
+
+def gen_template(rng, name, family=None):
+    """generic interleavings of one API call / import with one parked job (not tied to any code version):
+       tagjob-import : an import (extend / reset / add) completes while a tagging job is parked (either phase)
+       tagjob-refchg : a referenced tag changes (query edit, mark add/del) while the referrer's job is parked
+       convjob-2imp  : two imports complete while a converter job is parked at its start
+       view-import   : on-demand conversion through a view opened before / during an import"""
+    family = family or rng.choice(["tagjob-import", "tagjob-refchg", "convjob-2imp", "view-import"])
+    scn = _tmpl_base(rng, name, rng.choice([3, 4]))
+    kinds, x = _file_kinds(rng, scn)
+    acts = scn["actions"]
+
+    def add_def(d):
+        s = render(d)
+        scn["defs"][s] = d
+        return s
+    acts += [["import", [0]], ["settle", rng.randrange(1 << 20)]]
+    if family == "tagjob-import":
+        d = _plain_def(rng, scn)
+        acts.append(["addtag", "tag/a", add_def(d)])
+        if rng.random() < 0.3:      # a referrer, so that inheritance is exercised too
+            acts.append(["addtag", "tag/b", add_def(("ref", "tag/a"))])
+        for _ in range(rng.choice([0, 1])):
+            acts.append(["stepkind", "tag"])
+        order = rng.sample(["extend", "reset", "add"], rng.choice([1, 1, 2]))
+        for kd in order:
+            acts.append(["import", [kinds[kd]]])
+            acts += [["stepkind", "import"], ["stepkind", "import"]]
+        acts += [["stepkind", "tag"], ["stepkind", "tag"]]
+    elif family == "tagjob-refchg":
+        mark = rng.random() < 0.5
+        if mark:
+            acts.append(["addmark", "mark/m", [rng.randrange(len(scn["flows"]) - 1)]])
+            ref = "mark/m"
+        else:
+            acts.append(["addtag", "tag/a", add_def(_plain_def(rng, scn))])
+            acts.append(["settle", rng.randrange(1 << 20)])
+            ref = "tag/a"
+        r = ("ref", ref)
+        d = rng.choice([r, ("and", r, _plain_def(rng, scn, ("port", "host"))), ("not", r), ("sub", ref, "sport")])
+        acts.append(["addtag", "tag/c", add_def(d)])
+        if rng.random() < 0.3:
+            acts.append(["addtag", "tag/d", add_def(("ref", "tag/c"))])
+        for _ in range(rng.choice([0, 1])):
+            acts.append(["stepkind", "tag"])
+        if mark:
+            acts.append([rng.choice(["markadd", "markdel"]), "mark/m", sorted(rng.sample(range(len(scn["flows"]) - 1), rng.choice([1, 2])))])
+        else:
+            acts.append(["query", "tag/a", add_def(_plain_def(rng, scn))])
+        acts += [["stepkind", "tag"], ["stepkind", "tag"]]
+    elif family == "convjob-2imp":
+        acts.append(["addtag", "tag/a", add_def(_plain_def(rng, scn, ("port", "host", "id")))])
+        acts.append(["settle", rng.randrange(1 << 20)])
+        acts.append(["setconv", "tag/a", ["cva"]])
+        if rng.random() < 0.3:
+            acts.append(["stepkind", "convert"])
+        for kd in rng.sample(["extend", "reset", "add"], rng.choice([2, 2, 3])):
+            acts.append(["import", [kinds[kd]]])
+            acts += [["stepkind", "import"], ["stepkind", "import"]]
+        acts += [["stepkind", "convert"], ["stepkind", "convert"]]
+    else:
+        if rng.random() < 0.5:
+            acts.append(["viewopen", 0])
+        kd = rng.choice(["extend", "reset"])
+        acts.append(["import", [kinds[kd]]])
+        acts.append(["stepkind", "import"])
+        if ["viewopen", 0] not in acts:
+            acts.append(["viewopen", 0])
+        acts.append(["stepkind", "import"])
+        acts.append(["viewdata", 0, rng.randrange(len(scn["flows"]) - 1), "cva"])
+        acts.append(["viewopen", 1])
+        acts.append(["viewdata", 1, rng.randrange(len(scn["flows"]) - 1), "cva"])
+    acts.append(["settle", rng.randrange(1 << 20)])
+    scn["family"] = family
+    return scn
+
+
+FAMILY_OF_FIELD = {"tags": ["tagjob-import", "tagjob-refchg"], "next": ["tagjob-import"], "tc": ["convjob-2imp", "view-import"],
+                   "ca": ["convjob-2imp", "view-import"], "j": ["tagjob-import", "convjob-2imp"], "q": ["tagjob-import"],
+                   "ix": ["convjob-2imp"], "me": ["convjob-2imp", "tagjob-import"]}
+
+
 # ---------------------------------------------------------------------------- running the harness
 def tree_state():
     rc, head, _ = run(["git", "-C", REPO, "rev-parse", "HEAD"])
@@ -857,6 +971,7 @@ def load_known(prop=None):
 def scenarios_for(tier, seed):
     rng = random.Random(seed * 7919 + 6)
     n = 500 if tier == "quick" else 3000
+    n = int(os.environ.get("VERIF_C06_N", n))      # development only
     out = []
     cdir = os.path.join(ROOT, "corpus")
     for prop in ("C06", "C16", "C09"):
@@ -869,6 +984,8 @@ def scenarios_for(tier, seed):
                     out.append(s)
     for i in range(n):
         out.append(gen_scenario(rng, "g%04d" % i, rng.choice([12, 20, 30, 40])))
+    for i in range(n // 4):
+        out.append(gen_template(rng, "t%04d" % i))
     return out
 
 
@@ -883,7 +1000,7 @@ def to_ast(x):
 def shared_run(tier, seed):
     """runs (or loads) the scenario run shared by C06, C16 and C09"""
     os.makedirs(RUNDIR, exist_ok=True)
-    key = "%s_%d_%s" % (tier, seed, tree_state())
+    key = "%s_%d_%s%s" % (tier, seed, tree_state(), os.environ.get("VERIF_C06_N", ""))
     cache = os.path.join(RUNDIR, "shared_%s.json" % key)
     with Lock("c06run"):
         if os.path.exists(cache) and time.time() - os.path.getmtime(cache) < 3600:
@@ -902,6 +1019,13 @@ def shared_run(tier, seed):
 
 def model_exe():
     return build_model("C06", "ExtractC06.v", os.path.join(ROOT, "ocaml/c06"), ["theories/Tags.v"])[0]
+
+
+def setup():
+    """bin/check --setup: extraction + OCaml driver of the shared manager model (C06, C16, C09) and a warm Go test build"""
+    model_exe()
+    run_harness([], "setup", timeout=900)
+    return 0
 
 
 def model_divergence(exe, scns, results, per_lines, kfs, tag):
@@ -1040,7 +1164,7 @@ def analyse(shared, exe):
 def main_for(PROP, tier, seed, replay=None):
     t0 = time.time()
     sys.setrecursionlimit(10000)
-    proof = Proof(PROP) if os.path.exists(os.path.join(COQ, "props", PROP + ".v")) else None
+    proof = Proof(PROP, tier=tier) if os.path.exists(os.path.join(COQ, "props", PROP + ".v")) else None
     exe = model_exe()
     if replay:
         return do_replay(PROP, replay, exe)
@@ -1068,6 +1192,8 @@ def main_for(PROP, tier, seed, replay=None):
         violation(PROP, {"property": PROP, "broken": "scenario harness could not run / ground truth unusable on this tree",
                          "note": shared["note"][-1500:], "first": f.as_dict() if f else None,
                          "scenario": scns.get(f.scn) if f else None}, no_input=True)
+        nviol += 1
+    elif mdiv and targeted_search(PROP, mdiv, seed, exe):
         nviol += 1
     elif mdiv:
         n, l = mdiv[0]
@@ -1110,6 +1236,34 @@ def main_for(PROP, tier, seed, replay=None):
                     "the reference graph of tags respects a fixed ranking of tag names (model); C11 owns acyclicity"],
                    time.time() - t0, nviol)
     return 1 if nviol else 0
+
+
+def targeted_search(PROP, mdiv, seed, exe):
+    """the model stopped following the implementation but no oracle failed: look for a failing input in the scenario
+    families that exercise the first diverging field (thorough budget), plus mutations of the diverging scenario"""
+    fields = diverging_fields(mdiv[0][1])
+    fams = []
+    for k in fields:
+        for f in FAMILY_OF_FIELD.get(k, []):
+            if f not in fams:
+                fams.append(f)
+    fams = fams or ["tagjob-import", "tagjob-refchg", "convjob-2imp", "view-import"]
+    rng = random.Random(seed * 104729 + 17)
+    scns = [gen_template(rng, "s%04d" % i, fams[i % len(fams)]) for i in range(1200)]
+    res, note, dt = run_sharded(scns, "search", 8, timeout=900)
+    shared = {"scenarios": scns, "results": res, "note": note, "wall_s": dt}
+    r2, smap = analyse(shared, exe)
+    mine = [f for f in r2["viol"] if f.prop == PROP]
+    log("targeted search (%s; families %s): %d scenarios, %d unexplained findings for %s" % (fields, fams, len(scns), len(mine), PROP))
+    if not mine:
+        return False
+    f = min(mine, key=lambda x: len(smap[x.scn]["actions"]))
+    small = minimise(smap[f.scn], f, PROP, exe)
+    violation(PROP, {"property": PROP, "finding": f.as_dict(), "scenario": small, "seed": seed,
+                     "found_by": "targeted search after a model divergence in fields %s (families %s)" % (fields, fams),
+                     "model": mdiv[0][1][:1500], "n_failing": len(mine), "others": [x.as_dict() for x in mine[1:6]],
+                     "replay_cmd": "bin/check %s --replay <this file>" % PROP})
+    return True
 
 
 def analyse_one(scn, exe, tag):
